@@ -8,11 +8,18 @@ from analysis.guards import resolve_cond
 JSON_TYPES = ('serde_json::', 'JsonTokenizer', 'JsonValue', 'json_tokenizer::Number')
 ENTRY = ('Story::new', 'Story::load_state')
 # leaf decoders that take input text but no JSON-typed value
+DOC_PRIMITIVES = ('StoryState::pop_evaluation_stack', 'StoryState::pop_evaluation_stack_multiple',
+                  'StoryState::peek_evaluation_stack', 'StoryState::push_evaluation_stack',
+                  'CallStack::get_temporary_variable_with_name', 'CallStack::set_temporary_variable')
 EXTRA_DECODERS = ('Path::new_with_components_string', 'InkListItem::from_full_name', 'PushPopType::from_value',
                   'StoryState::load_json', 'json_read::load_from_string', 'json_read_stream::load_from_string')
 
 # sites whose receiver cannot depend on the input document (confirmed by reading)
 TABLE = {
+    'CallStack::get_temporary_variable_with_name|assert:overflow:Add|call:CallStack::get_current_element_index':
+        'call-stack height (len as i32 - 1) + 1: the height is bounded by memory (each frame holds a map), far below i32::MAX',
+    'CallStack::set_temporary_variable|assert:overflow:Add|call:CallStack::get_current_element_index':
+        'call-stack height + 1, as above',
 }
 
 
@@ -207,6 +214,69 @@ def sccs(nodes, edges):
     return out
 
 
+def judge_sites(chk, prog, tr, RULE, D, used):
+    nsites = 0
+    ords = {}
+    for p in sorted(D):
+        fn = D[p]
+        for s in sites(prog, fn):
+            nsites += 1
+            t = s['term']
+            kind = s['kind']
+            base = '%s|%s' % (fn.short, kind)
+            n = ords.get(base, 0)
+            ords[base] = n + 1
+            key = chk.key(RULE, fn.short, kind, '#%d' % n)
+            loc = fn.loc(s['bb'])
+            # constant in-range indexing of a fixed-size array
+            if kind == 'assert:bounds' and t['a']['k'] == 'const' and t['b']['k'] == 'const' \
+                    and t['b'].get('int', 1) < t['a'].get('int', 0):
+                chk.ok(RULE, key, 'constant index within a fixed-size array', loc)
+                continue
+            if kind == 'assert:bounds':
+                pa, pb = tr.prov(fn, t['a']), tr.prov(fn, t['b'])
+                if len(pa) == 1 and len(pb) == 1 and all(x.startswith('const:') for x in pa | pb):
+                    try:
+                        if int(list(pb)[0][6:]) < int(list(pa)[0][6:]):
+                            chk.ok(RULE, key, 'constant index within a fixed-size array', loc)
+                            continue
+                    except ValueError:
+                        pass
+            if kind == 'method:Vec::drain' and len(t['args']) > 1:
+                ra = tr.prov(fn, t['args'][1])
+                if 'agg:RangeFrom::RangeFrom' in ra and 'op:checked_sub' in ra and 'field:Option::Some.0' in ra \
+                        and 'call:Vec::len' in ra:
+                    chk.ok(RULE, key, 'drain(start..) with start = len.checked_sub(n) taken on its Some side', loc)
+                    continue
+            bd = bounded_by_dominating_cmp(prog, fn, s, tr)
+            if bd:
+                chk.ok(RULE, key, 'guard-dominated: ' + bd, loc)
+                continue
+            gd = guard_dominated(prog, fn, s, tr)
+            if gd:
+                chk.ok(RULE, key, 'guard-dominated: ' + gd['guard'], loc)
+                continue
+            atoms = set()
+            if t['k'] == 'call' and t['args']:
+                atoms = tr.prov(fn, t['args'][0])
+            elif t['k'] == 'assert':
+                atoms = tr.prov(fn, t['a']) | (tr.prov(fn, t['b']) if 'b' in t else set())
+            hit = None
+            for a in sorted(atoms):
+                tk = '%s|%s|%s' % (fn.short, kind, a)
+                if tk in TABLE:
+                    hit = tk
+                    break
+            if hit:
+                used.add(hit)
+                chk.ok(RULE, key, 'table: ' + TABLE[hit], loc)
+                continue
+            chk.fail(RULE, key, '%s in %s can panic on malformed input (operand provenance: %s); use `?` with '
+                     'StoryError::BadJson' % (kind, fn.short, sorted(a for a in atoms if not a.startswith('via:'))[:4]),
+                     loc)
+    return nsites
+
+
 def run(chk, prog):
     tr = Tracer(prog)
     chk.not_decided += ['"within bounded time": termination of the tokenizer / decoder loops',
@@ -229,61 +299,47 @@ def run(chk, prog):
     D = decoder_set(prog)
     chk.floor(R1, 'decoder functions', len(D), 40)
     chk.extra_cov['decoder_functions'] = sorted(f.short for f in D.values())
-    nsites = 0
     used = set()
-    ords = {}
-    for p in sorted(D):
-        fn = D[p]
-        for s in sites(prog, fn):
-            nsites += 1
-            t = s['term']
-            kind = s['kind']
-            base = '%s|%s' % (fn.short, kind)
-            n = ords.get(base, 0)
-            ords[base] = n + 1
-            key = chk.key(R1, fn.short, kind, '#%d' % n)
-            loc = fn.loc(s['bb'])
-            # constant in-range indexing of a fixed-size array
-            if kind == 'assert:bounds' and t['a']['k'] == 'const' and t['b']['k'] == 'const' \
-                    and t['b'].get('int', 1) < t['a'].get('int', 0):
-                chk.ok(R1, key, 'constant index within a fixed-size array', loc)
-                continue
-            if kind == 'assert:bounds':
-                pa, pb = tr.prov(fn, t['a']), tr.prov(fn, t['b'])
-                if len(pa) == 1 and len(pb) == 1 and all(x.startswith('const:') for x in pa | pb):
-                    try:
-                        if int(list(pb)[0][6:]) < int(list(pa)[0][6:]):
-                            chk.ok(R1, key, 'constant index within a fixed-size array', loc)
-                            continue
-                    except ValueError:
-                        pass
-            bd = bounded_by_dominating_cmp(prog, fn, s, tr)
-            if bd:
-                chk.ok(R1, key, 'guard-dominated: ' + bd, loc)
-                continue
-            gd = guard_dominated(prog, fn, s, tr)
-            if gd:
-                chk.ok(R1, key, 'guard-dominated: ' + gd['guard'], loc)
-                continue
-            atoms = set()
-            if t['k'] == 'call' and t['args']:
-                atoms = tr.prov(fn, t['args'][0])
-            elif t['k'] == 'assert':
-                atoms = tr.prov(fn, t['a']) | (tr.prov(fn, t['b']) if 'b' in t else set())
-            hit = None
-            for a in sorted(atoms):
-                tk = '%s|%s|%s' % (fn.short, kind, a)
-                if tk in TABLE:
-                    hit = tk
-                    break
-            if hit:
-                used.add(hit)
-                chk.ok(R1, key, 'table: ' + TABLE[hit], loc)
-                continue
-            chk.fail(R1, key, '%s in decoder %s can panic on malformed input (operand provenance: %s); use `?` with '
-                     'StoryError::BadJson' % (kind, fn.short, sorted(a for a in atoms if not a.startswith('via:'))[:4]),
-                     loc)
+    nsites = judge_sites(chk, prog, tr, R1, D, used)
     chk.extra_cov['panic_sites_in_decoders'] = nsites
+
+    # ---- the interpreter primitives a story document drives directly
+    R4 = 'C15.construction-runs-the-document'
+    chk.rule(R4, 'Story::new runs the document\'s global-declaration container through the interpreter, so the document decides '
+             'the sequence of pushes and pops of the evaluation stack: the evaluation-stack accessors (pop, pop-multiple, '
+             'peek, push) contain no unguarded panic-capable construct - an underflow or an unknown list is an Err.')
+    prim = {}
+    for nm in DOC_PRIMITIVES:
+        f_ = prog.fn(nm)
+        if chk.anchor(R4, nm, f_):
+            prim[f_.p] = f_
+            for c_ in prog.closures_of(f_):
+                prim[c_.p] = c_
+    np_ = judge_sites(chk, prog, tr, R4, prim, used)
+    chk.extra_cov['panic_sites_in_document_driven_primitives'] = np_
+    snew = prog.fn('Story::new')
+    if chk.anchor(R4, 'Story::new', snew):
+        reach, work = set(), [snew]
+        while work:
+            f_ = work.pop()
+            if f_.p in reach:
+                continue
+            reach.add(f_.p)
+            for g_ in prog.with_closures(f_):
+                reach.add(g_.p)
+                for bb, t in g_.calls():
+                    h_ = prog.fns.get(callee(t))
+                    if h_ is not None and h_.p not in reach:
+                        work.append(h_)
+        runs = any(prog.fns[p_].short == 'Story::continue_internal' for p_ in reach)
+        chk.extra_cov['construction_reaches_interpreter'] = runs
+        rest = 0
+        for p_ in reach:
+            f_ = prog.fns[p_]
+            if f_.crate == 'bladeink' and p_ not in D and p_ not in prim:
+                rest += sum(1 for s_ in sites(prog, f_) if not guard_dominated(prog, f_, s_, tr))
+        chk.extra_cov['undecided_panic_capable_sites_reachable_from_construction'] = rest
+
     for k in TABLE:
         if k not in used:
             chk.note('C15 table entry matches no site (stale): ' + k)
